@@ -295,6 +295,7 @@ func (hc *httpCache) HitForPass(ttl int) {
 	hc.status = StatusHitForPass
 	list := hc.chanList
 	hc.chanList = nil
+	verifPoint("complete.detached", hc)
 	for _, ch := range list {
 		ch <- waitResult{status: StatusHitForPass}
 	}
@@ -323,6 +324,7 @@ func (hc *httpCache) Cacheable(resp *HTTPResponse, ttl int) {
 	hc.response = resp
 	list := hc.chanList
 	hc.chanList = nil
+	verifPoint("complete.detached", hc)
 	for _, ch := range list {
 		ch <- waitResult{status: StatusHit, response: resp}
 	}
